@@ -32,6 +32,8 @@ type Oblig struct {
 	SMTFile string
 	Vars    []string // terms to evaluate in a model
 	Budget  time.Duration // per-obligation time budget override (0 = default)
+	Cross    []string // thorough tier: answers of the other solvers ("z3:unsat")
+	Disagree bool     // thorough tier: a definite answer of another solver contradicts Status
 }
 
 type Loop struct {
